@@ -46,6 +46,7 @@ structure JobFacts where
   cancelledBeforeStart : Bool := false -- a jclose returned nil while entered = 0
   maybePurged : Bool := false      -- a purge of its queue was in progress/after its add call began while it had not entered
   maybeRejected : Bool := false    -- batch item submitted after a Close of its queue had been called (the API does not report it)
+  rejected : Bool := false         -- batch item submitted after a Close of its queue had returned: certainly rejected
   deriving Repr, Inhabited
 
 /-- Common bookkeeping shared by several predicates. -/
@@ -55,6 +56,7 @@ structure Book where
   inflight : Nat := 0
   crashed : Bool := false
   closedQueues : List Nat := []          -- queues for which a Close call has started
+  closedDone : List Nat := []            -- queues for which a Close call has returned
   deriving Repr, Inhabited
 
 def Book.job (b : Book) (k : Nat) : JobFacts := lookupD {} b.jobs k
@@ -69,14 +71,16 @@ def Book.step (b : Book) : Obs → Book
     | .add q k _ => b.setJob k { b.job k with q := q, addCalled := true }
     | .addAll q _ ks _ =>
       let closing := b.closedQueues.contains q
-      ks.foldl (fun b k => b.setJob k { b.job k with q := q, addCalled := true, batch := true, addRet := some true, maybeRejected := closing }) b
+      let closedNow := b.closedDone.contains q
+      ks.foldl (fun b k => b.setJob k { b.job k with q := q, addCalled := true, batch := true, addRet := some true, maybeRejected := closing, rejected := closedNow }) b
     | .qclose q => { b with closedQueues := q :: b.closedQueues }
     | .jclose k => b.setJob k { b.job k with closeCalled := true }
     | .purge q =>
       { b with jobs := b.jobs.map (fun (k, f) => if f.q == q && f.addCalled && f.entered == 0 then (k, { f with maybePurged := true }) else (k, f)) }
     | _ => b
-  | .ret _ cid _ r =>
+  | .ret _ cid c r =>
     let b := { b with openCalls := b.openCalls.filter (·.1 != cid) }
+    let b := match c with | .qclose q => { b with closedDone := q :: b.closedDone } | _ => b
     match r with
     | .add k ok => b.setJob k { b.job k with addRet := some ok }
     | .jclose k .none =>
@@ -466,11 +470,11 @@ def atEnd (p : Params) (b : Book) (tr : List Obs) (e : EndInfo) : List Viol :=
   match finalOf tr with
   | some f =>
     let c := f.counts
-    let acc := (b.jobs.filter (fun (_, j) => accepted j)).length
+    let acc := (b.jobs.filter (fun (_, j) => accepted j && !j.rejected)).length
     let started := b.jobs.foldl (fun n (_, j) => n + j.entered) 0
     let finished := b.jobs.foldl (fun n (_, j) => n + j.exited) 0
     let clean := b.jobs.all (fun (_, j) => !j.closeCalled && !j.maybePurged)
-    let certain := b.jobs.all (fun (_, j) => !j.maybeRejected)
+    let certain := b.jobs.all (fun (_, j) => !j.maybeRejected || j.rejected)
     let qsum := tr.foldl (fun n o => match o with | .fqueue _ m => n + m | _ => n) (0 : Int)
     if !certain then [] else
     (if c.submitted != acc then [s!"at rest Submitted={c.submitted} but {acc} submissions were accepted"] else [])
